@@ -153,6 +153,23 @@ XsWithinModels(cfg, pt, energies) ==
      \A mat \in Materials : \A e \in energies :
         CalcXs(XsTab(cfg, i, pt, mat), e) > 0 => FindModel(SortedRanges(cfg, i, pt), e) # 0
 
+\* ---------------------------------------------------------------- projection on one track
+(* What a track of particle pt in material mat sees of the constructed PhysicsParams:
+   procs[n] (n = ParticleProcessId + 1) = [id, integral, xs, rs (sorted model ranges), micro (per model)],
+   elossp, range table, at-rest flag, fixed limiter, d, number of elements. *)
+Proj(cfg, pt, mat) ==
+  LET ps == ProcsOf(cfg, pt)
+      ep == ElossP(cfg, pt)
+  IN [np |-> Len(ps),
+      procs |-> [n \in DOMAIN ps |->
+                   LET i == ps[n] IN
+                   [id |-> i, integral |-> IntegralOn(cfg, i), xs |-> XsTab(cfg, i, pt, mat),
+                    rs |-> SortedRanges(cfg, i, pt),
+                    micro |-> [j \in DOMAIN cfg.procs[i].models |-> cfg.procs[i].models[j].micro]]],
+      elossp |-> ep,
+      range |-> IF ep = 0 THEN <<>> ELSE RangeTab(cfg, ps[ep], pt, mat),
+      atrest |-> AtRest(cfg, pt), fixed |-> cfg.fixed, d |-> cfg.d, nel |-> NumElements(mat)]
+
 \* ---------------------------------------------------------------- PhysicsTrackView: MFP
 InitTrack(t) == [t EXCEPT !.mfp = 0]
 SetMfp(t, x) == [t EXCEPT !.mfp = x]
@@ -160,11 +177,9 @@ ResetMfp(t) == [t EXCEPT !.mfp = 0]
 HasMfp(t) == t.mfp > 0
 
 \* ---------------------------------------------------------------- calc_physics_step_limit
-PerProcessXs(cfg, pt, mat, e) ==
-  LET ps == ProcsOf(cfg, pt) IN
-  [n \in DOMAIN ps |->
-     IF IntegralOn(cfg, ps[n]) THEN CalcMaxXs(XsTab(cfg, ps[n], pt, mat), e, cfg.d)
-     ELSE CalcXs(XsTab(cfg, ps[n], pt, mat), e)]
+PerProcessXs(P, e) ==
+  [n \in DOMAIN P.procs |->
+     IF P.procs[n].integral THEN CalcMaxXs(P.procs[n].xs, e, P.d) ELSE CalcXs(P.procs[n].xs, e)]
 
 \* rationals [n, d], d >= 0 (d = 0: infinite)
 Inf == [n |-> 1, d |-> 0]
@@ -180,20 +195,17 @@ EqQ(a, b) == LeQ(a, b) /\ LeQ(b, a)
 \*   a particle with an energy loss process: the range wins a TIE against the interaction;
 \*   the fixed step limiter applies only to those particles and only when strictly smaller
 \*   a particle without any process: no action
-StepLimit(cfg, pt, mat, e, m, tot) ==
-  LET np == Len(ProcsOf(cfg, pt))
-      ep == ElossP(cfg, pt)
-      disc == IF tot = 0 THEN Inf ELSE Rat(m, tot)
-  IN
+StepLimit(P, e, m, tot) ==
+  LET disc == IF tot = 0 THEN Inf ELSE Rat(m, tot) IN
   IF e = 0 THEN [step |-> Rat(0, 1), act |-> ActDiscrete, range |-> 0]
-  ELSE IF ep # 0 THEN
-     LET r == CalcXs(RangeTab(cfg, ProcsOf(cfg, pt)[ep], pt, mat), e)
+  ELSE IF P.elossp # 0 THEN
+     LET r == CalcXs(P.range, e)
          s1 == IF LeQ(Rat(r, 1), disc) THEN [step |-> Rat(r, 1), act |-> ActRange]
                ELSE [step |-> disc, act |-> ActDiscrete]
-         s2 == IF cfg.fixed > 0 /\ LtQ(Rat(cfg.fixed, 1), s1.step)
-               THEN [step |-> Rat(cfg.fixed, 1), act |-> ActFixed] ELSE s1
+         s2 == IF P.fixed > 0 /\ LtQ(Rat(P.fixed, 1), s1.step)
+               THEN [step |-> Rat(P.fixed, 1), act |-> ActFixed] ELSE s1
      IN [step |-> s2.step, act |-> s2.act, range |-> r]
-  ELSE IF np = 0 THEN [step |-> disc, act |-> ActNone, range |-> 0]
+  ELSE IF P.np = 0 THEN [step |-> disc, act |-> ActNone, range |-> 0]
   ELSE [step |-> disc, act |-> ActDiscrete, range |-> 0]
 
 \* ---------------------------------------------------------------- TrackUpdater
@@ -229,42 +241,41 @@ SelectElement(D, micro, e, a) ==
 RejectTest(integ, D, a, smax, xs1) == integ /\ GtU(D, a, smax, xs1)
 
 (* pp, tot: the per-process cross sections STORED AT THE PRE-STEP; e1: post-step energy.
-   Result [n (ParticleProcessId + 1), reject, model (index in SortedRanges, 0 = none), act, el
+   Result [n (ParticleProcessId + 1), reject, model (index in the sorted ranges, 0 = none), act, el
    (-1 = not sampled), draws].
      integral approach: for a process with energy loss the stored value is an estimate of the
      maximum over the step; the interaction is REJECTED with probability 1 - sigma(E1)/sigma_max:
      rejected  <=>  u2 * sigma_max > sigma(E1)   -- never for other processes
      the model is looked up at the POST-step energy
+   a1, a2, a3 are the uniforms IN THE ORDER DRAWN: a1 selects the process; an integral process draws
+   the next one for the rejection test; the element selector draws the next one after that.
    The three operator parameters are the decision points (the design check seeds wrong variants). *)
-SelectWith(cfg, D, pt, mat, pp, tot, e1, a1, a2, a3, CumEx(_, _, _, _), Find(_, _), Rej(_, _, _, _, _)) ==
-  LET ps == ProcsOf(cfg, pt)
-      n == SelectProcWith(D, pp, tot, a1, CumEx)
-      i == ps[n]
-      integ == IntegralOn(cfg, i)
-      xs1 == CalcXs(XsTab(cfg, i, pt, mat), e1)
-      rej == Rej(integ, D, a2, pp[n], xs1)
-      rs == SortedRanges(cfg, i, pt)
-      fm == Find(rs, e1)
-      sample == ~rej /\ fm # 0 /\ NumElements(mat) > 1 /\ HasMicro(rs[fm], mat)
+SelectWith(P, D, pp, tot, e1, a1, a2, a3, CumEx(_, _, _, _), Find(_, _), Rej(_, _, _, _, _)) ==
+  LET n == SelectProcWith(D, pp, tot, a1, CumEx)
+      pr == P.procs[n]
+      xs1 == CalcXs(pr.xs, e1)
+      rej == Rej(pr.integral, D, a2, pp[n], xs1)
+      fm == Find(pr.rs, e1)
+      sample == ~rej /\ fm # 0 /\ P.nel > 1 /\ pr.rs[fm].micro
       el == IF rej \/ fm = 0 THEN -1
-            ELSE IF NumElements(mat) = 1 THEN 0
-            ELSE IF sample THEN SelectElement(D, cfg.procs[i].models[rs[fm].mj].micro, e1, a3)
+            ELSE IF P.nel = 1 THEN 0
+            ELSE IF sample THEN SelectElement(D, pr.micro[pr.rs[fm].mj], e1, IF pr.integral THEN a3 ELSE a2)
             ELSE -1
-  IN [n |-> n, proc |-> i, integral |-> integ, xs1 |-> xs1, reject |-> rej, model |-> fm,
-      act |-> IF rej THEN ActReject ELSE IF fm = 0 THEN "NO-MODEL" ELSE rs[fm].label,
+  IN [n |-> n, proc |-> pr.id, integral |-> pr.integral, xs1 |-> xs1, reject |-> rej, model |-> fm,
+      act |-> IF rej THEN ActReject ELSE IF fm = 0 THEN "NO-MODEL" ELSE pr.rs[fm].label,
       el |-> el,
-      draws |-> 1 + (IF integ THEN 1 ELSE 0) + (IF sample THEN 1 ELSE 0)]
+      draws |-> 1 + (IF pr.integral THEN 1 ELSE 0) + (IF sample THEN 1 ELSE 0)]
 
-Select(cfg, D, pt, mat, pp, tot, e1, a1, a2, a3) ==
-  SelectWith(cfg, D, pt, mat, pp, tot, e1, a1, a2, a3, CumExceeds, FindModel, RejectTest)
+Select(P, D, pp, tot, e1, a1, a2, a3) ==
+  SelectWith(P, D, pp, tot, e1, a1, a2, a3, CumExceeds, FindModel, RejectTest)
 
 \* ---------------------------------------------------------------- design properties (per call)
 \* the selected process has a positive stored cross section
 SelectedHasXs(pp, s) == pp[s.n] > 0
 \* an accepted interaction has a model whose range contains the post-step energy
-ModelContains(cfg, pt, s, e1) ==
+ModelContains(P, s, e1) ==
   (~s.reject /\ s.model # 0) =>
-     LET rs == SortedRanges(cfg, s.proc, pt) IN
+     LET rs == P.procs[s.n].rs IN
      /\ rs[s.model].lo <= e1
      /\ (e1 < rs[s.model].hi \/ (s.model = Len(rs) /\ e1 = rs[s.model].hi))
      /\ \A q \in DOMAIN rs : q # s.model => ~(rs[q].lo <= e1 /\ e1 < rs[q].hi)
